@@ -114,7 +114,7 @@ func verifC17SameSet(got, want []string) bool {
 	w := newVerifRec()
 	u := &url.URL{Path: path}
 	vrt.SetQuery(u, query)
-	r := &http.Request{Method: method, URL: u, Header: hdr}
+	r := &http.Request{Method: method, URL: u, Header: hdr, Body: http.NoBody}
 	vrt.Enter()
 	api.ServeHTTP(w, r)
 	want, _ := verifC17RefRoute(path, method)
